@@ -293,6 +293,8 @@ def http_clean(case):
             return False
         if any((c < 32 and c != 9) or c == 127 for c in v) or v != v.strip(b" \t"):
             return False
+        if k.lower() == b"content-length" and v != str(len(case["body"] or b"")).encode():
+            return False  # a peer cannot get a request with a wrong/garbled content-length through the proxy
     return True
 
 
